@@ -105,6 +105,33 @@ func newDvSim(c *h.Ctx, n int) *dvSim {
 	return s
 }
 
+// restart replaces router i by a fresh instance with the same name (a crash and restart that is
+// quicker than its neighbours' dead interval: they never expire it, its links stay).
+func (s *dvSim) restart(i int) bool {
+	old := s.nodes[i]
+	tm := simeng.NewTimer()
+	eng := simeng.NewEngine(tm)
+	r, err := dv.NewRouter(old.cfg, eng)
+	if err != nil {
+		s.bad = "NewRouter (restart): " + err.Error()
+		return false
+	}
+	nd := &dvNode{idx: i, name: old.cfg.RouterName(), r: r, eng: eng, cfg: old.cfg, alive: true, routes: map[string]map[uint64]uint64{}, infra: map[string]map[uint64]uint64{}}
+	r.VerifSelfInit()
+	nd.eng.OnExpress = func(x simeng.Expressed) { s.onExpress(nd, x) }
+	s.nodes[i] = nd
+	s.mu.Lock()
+	delete(s.advFetch, i)
+	s.mu.Unlock()
+	for k := range s.seen {
+		if k[0] == i || k[1] == i {
+			delete(s.seen, k) // late copies belong to the previous incarnation's conversations
+		}
+	}
+	s.events = append(s.events, fmt.Sprintf("r%d restarts (new instance, same name, links kept)", i))
+	return true
+}
+
 func (s *dvSim) link(a, b int) bool {
 	if a > b {
 		a, b = b, a
